@@ -43,7 +43,7 @@ def cases(tier, seed):
     out = [dict(name="rotation_lemmas", kind="lemmas")]
     for pre in PRE:
         for op in OPS:
-            n = 3 if op in ("reduce_to_ids", "downsample", "transform_propagate") else 2
+            n = 3 if op in ("reduce_to_ids", "downsample") else 2
             out.append(dict(name="%s__%s" % (pre, op), kind="step", pre=pre, ops=[op], n=n))
     if tier != "quick":
         pairs = [("transform_left", "scale"), ("scale", "transform_right"), ("reduce_to_ids", "transform_left"),
@@ -252,12 +252,13 @@ def run_step(case, col):
                                              z3.BoolVal(infos["nr. of poses"] == K))
             pl = infos["path length (m)"]
             hyps = []
-            tot = z3.RealVal(0)
+            tot = 0
             for i in range(K - 1):
-                u = z3.Real("step_%d" % i)
-                hyps += [u >= 0, u * u == sum((zz(m.p[i + 1][a]) - zz(m.p[i][a])) * (zz(m.p[i + 1][a]) - zz(m.p[i][a])) for a in range(3))]
-                tot = tot + u
-            g["path_length_is_sum_of_step_lengths"] = (toz(pl) == tot) if pl is not sc.POISON else z3.BoolVal(False)
+                # the sqrt stub is a function of the *normal form* of its radicand: the specification's step
+                # length |p_{i+1} - p_i| written from the model is the same atom iff the radicands agree
+                rad = sum((zz(m.p[i + 1][a]) - zz(m.p[i][a])) * (zz(m.p[i + 1][a]) - zz(m.p[i][a])) for a in range(3))
+                tot = tot + sc.sym_sqrt(sc.mk(rad) if not isinstance(rad, (int, Fraction)) else rad)
+            g["path_length_is_sum_of_step_lengths"] = (toz(pl) == toz(tot)) if pl is not sc.POISON else z3.BoolVal(False)
         else:
             hyps = []
         if "deepcopy" in ops and "src" in state:
